@@ -2,10 +2,11 @@
 #define LL_ARENA_PTR_CELLS 48
 #define LL_ARENA_T uint8_t
 #include "harness.h"
+static int g_lang = 1;
 static void feed(int n, int nc, uint8_t* cm, struct sstr* tx, uint32_t* ln, uint32_t* cl, uint8_t* out, uint64_t* len) {
   uint8_t* tp[3] = {(uint8_t*)&tx[0], (uint8_t*)&tx[1], (uint8_t*)&tx[2]};
   memset(out, 0, 64);
-  k_hashfeed(n, nc, cm, (uint8_t*)tp, (uint8_t*)ln, (uint8_t*)cl, out, (uint8_t*)len);
+  k_hashfeed(g_lang, n, nc, cm, (uint8_t*)tp, (uint8_t*)ln, (uint8_t*)cl, out, (uint8_t*)len);
 }
 void harness(void) {
   uint8_t cmA[3] = {0, 0, 0}, cmB[3] = {0, 0, 0}; struct sstr txA[3], txB[3]; uint32_t lnA[3], clA[3], lnB[3], clB[3];
@@ -23,6 +24,16 @@ void harness(void) {
   for (unsigned i = 0; i < 40; i++) if (i < lenA && outA[i] != outB[i]) same = 0;
   H_OUT("lenA", lenA); H_OUT("same", same);
   H_ASSERT(!same, "a different line or column number changes the hashed byte string");
+#elif MODE == 2
+  sstr_sym(&txA[0], 1, 1); sstr_set(&txA[1], "x"); sstr_set(&txA[2], "x"); lnA[0] = in_u32(); clA[0] = in_u32(); lnA[1] = lnA[2] = clA[1] = clA[2] = 0;
+  g_lang = 1; feed(1, 0, cmA, txA, lnA, clA, outA, &lenA);
+  g_lang = 2; feed(1, 0, cmA, txA, lnA, clA, outB, &lenB);
+  g_lang = 1;
+  H_ASSERT(!__exc_pending, "no exception");
+  int same = (lenA == lenB);
+  for (unsigned i = 0; i < 40; i++) if (i < lenA && outA[i] != outB[i]) same = 0;
+  H_OUT("lenA", lenA); H_OUT("same", same);
+  H_ASSERT(!same, "analysing the file as another language changes the hashed byte string");
 #else
   /* stream A: [T]; stream B: [comment][T'] -- same location for T and T' */
   sstr_sym(&txA[0], 1, 1); sstr_sym(&txB[1], 1, 1); sstr_sym(&txB[0], 1, 1); sstr_set(&txA[1], "x"); sstr_set(&txA[2], "x"); sstr_set(&txB[2], "x");
